@@ -1,12 +1,36 @@
-// C11 harness: N threads hammer ONE JitAllocator / JitRuntime (alloc, write, shrink, query, statistics, release,
-// add/release of code) and, independently, each thread assembles/compiles with its OWN CodeHolder/emitters.
-// Output (after all threads joined): one `span` line per allocation with its real-time lifetime, one `code` line per thread.
-// Line protocol:  run <threads> <ops per thread> <seed> <options hex> <granularity>
+// C11 harness: N threads hammer ONE JitAllocator / JitRuntime (alloc, write, shrink, write-with-truncation, query, statistics,
+// release, add/release of code) and, independently, each thread uses its OWN JitAllocator and generates code with its OWN CodeHolder/emitters
+// (x86-64 and AArch64; Assembler, Builder, Compiler; with a logger) and compares it with the single-threaded result.
+//
+// Line protocol:  run <threads> <ops per thread> <seed> <options hex> <granularity> [<yield level 0..3>]
+// Output (after all threads joined):
+//   hook <0|1>                       was verification hook H2 (asmjit_verif_jit_event) compiled in and used?
+//   span <tid> <addr> <size> <req> <t0> <t1> <ok>   one per allocation: real-time lifetime (trace monitor, Spec/JitTrace.lean)
+//   code <tid> runs=<n> asm_diff=<x> cc_diff=<x> [first=<kind>:<seed>]
+//   L <tid> <seq> <sig> | <C09 op> => <C09 answer> ; <statistics>      (only with the hook)
+//        the LINEARISATION: one line per critical section in lock order (recorded by the hook callback while the
+//        allocator's lock is held), exactly in the protocol of harness/c09.cpp, so that C09's model and monitor can replay it.
+//        Operations that take no lock (the caller's own write / read of its span) are inserted just before the thread's next
+//        critical section (sig `u`).  Quiescent observations after the join (sweep, dump, blocks, reset) have tid `-`.
+//   P <tid> <seq> <sig>              per-thread program order with the result the CALLER saw (only with the hook)
+//   end spans=<n> errors=<n> final_allocations=<n> used=<n>
+//
+// With -DC11_H2 the TU includes jitallocator.cpp (private block state for the callback and the final dump; the archive member is
+// then not pulled in).  The callback relies on the allocator's own lock only - it adds no synchronisation of its own, so TSan
+// still sees every unsynchronised access inside the library.
 #include <asmjit/core.h>
 #include <asmjit/x86.h>
+#include <asmjit/a64.h>
+#ifdef C11_H2
+#include <asmjit/core/jitallocator.cpp>
+#endif
+#include <algorithm>
 #include <atomic>
-#include <thread>
+#include <map>
 #include <random>
+#include <sched.h>
+#include <thread>
+#include <unistd.h>
 #include "vh.h"
 
 using namespace asmjit;
@@ -16,46 +40,511 @@ static inline uint64_t now() { return g_clock.fetch_add(1, std::memory_order_rel
 
 struct SpanRec { uint32_t tid; uint64_t rx, rw, size, requested, t0, t1; uint32_t ok; };
 
-static uint64_t gen_code_hash(uint32_t variant, bool use_compiler) {
-  // deterministic program; returns FNV of the flattened code
-  Environment env(Arch::kX64);
-  CodeHolder code;
-  code.init(env);
-  vh::Fnv h;
-  if (!use_compiler) {
-    x86::Assembler a(&code);
-    Label l = a.new_label();
-    for (uint32_t i = 0; i < 40 + variant; i++) {
-      a.mov(x86::rax, i * 17 + variant);
-      a.add(x86::rax, x86::ptr(x86::rdi, int32_t(i * 8)));
-      if (i == 7) a.jmp(l);
-      if (i == 30) a.bind(l);
-      a.vaddps(x86::ymm0, x86::ymm1, x86::ptr(x86::rsi, x86::rcx, 2, 64));
+// ---------------------------------------------------------------------------------------------------------------------
+// independent code generation: programs through the generic emitter interface
+// ---------------------------------------------------------------------------------------------------------------------
+namespace {
+
+struct Rng {
+  uint64_t s;
+  explicit Rng(uint64_t seed) : s(seed * 0x9E3779B97F4A7C15ull + 0x1234567ull) {}
+  uint64_t next() { s ^= s << 13; s ^= s >> 7; s ^= s << 17; return s; }
+  uint32_t below(uint32_t n) { return uint32_t(next() % n); }
+};
+
+// x86-64 instruction stream (Assembler or Builder); includes instructions with 4 and more operands
+Error prog_asmx(BaseEmitter* be, uint64_t seed, uint32_t n) {
+  x86::Emitter* e = be->as<x86::Emitter>();
+  Rng r(seed);
+  static const x86::Gp regs[] = { x86::rax, x86::rcx, x86::rdx, x86::rbx, x86::rsi, x86::rdi, x86::r8, x86::r9, x86::r12, x86::r13 };
+  auto reg = [&]() { return regs[r.below(10)]; };
+  auto xm = [&]() { return x86::xmm(r.below(16)); };
+  auto ym = [&]() { return x86::ymm(r.below(16)); };
+  std::vector<Label> pending, bound;
+  Error first = Error::kOk;
+  auto note = [&](Error err) { if (err != Error::kOk && first == Error::kOk) first = err; };
+  for (uint32_t i = 0; i < n; i++) {
+    switch (r.below(18)) {
+      case 0: note(e->mov(reg(), Imm(int64_t(r.next() >> r.below(60))))); break;
+      case 1: note(e->add(reg(), reg())); break;
+      case 2: note(e->lea(reg(), x86::ptr(reg(), regs[r.below(4)], r.below(4), int32_t(r.below(4096)) - 2048))); break;
+      case 3: note(e->xor_(reg().r32(), reg().r32())); break;
+      case 4: { Label l = e->new_label(); pending.push_back(l); note(e->jz(l)); break; }
+      case 5: { Label l = e->new_label(); pending.push_back(l); note(e->jmp(l)); break; }
+      case 6: if (!bound.empty()) { note(e->jnz(bound[r.below(uint32_t(bound.size()))])); } break;
+      case 7: if (!pending.empty()) { Label l = pending.back(); pending.pop_back(); note(e->bind(l)); bound.push_back(l); } break;
+      case 8: { uint64_t v = r.next(); note(e->embed(&v, 1 + r.below(8))); break; }
+      case 9: note(e->align(AlignMode::kCode, 1u << r.below(5))); break;
+      case 10: if (!bound.empty()) { note(e->lea(reg(), x86::ptr(bound[r.below(uint32_t(bound.size()))]))); } break;
+      case 11: { Label l = e->new_label(); pending.push_back(l); note(e->mov(reg(), x86::ptr(l))); break; }
+      case 12: note(e->vshufps(xm(), xm(), xm(), Imm(r.below(256)))); break;                       // 4 operands
+      case 13: note(e->vblendvps(ym(), ym(), ym(), ym())); break;                                  // 4 operands
+      case 14: note(e->vinsertf128(ym(), ym(), x86::ptr(reg(), int32_t(r.below(256))), Imm(r.below(2)))); break;
+      case 15: note(e->vpblendvb(xm(), xm(), xm(), xm())); break;
+      case 16: note(e->vaddps(ym(), ym(), x86::ptr(reg(), regs[r.below(4)], 2, 64))); break;
+      case 17: note(e->shld(reg(), reg(), Imm(r.below(63) + 1))); break;
     }
-    a.ret();
   }
-  else {
-    x86::Compiler cc(&code);
-    FuncNode* f = cc.add_func(FuncSignature::build<int, int, int>());
-    x86::Gp a0 = cc.new_gp32(), a1 = cc.new_gp32();
-    f->set_arg(0, a0); f->set_arg(1, a1);
-    std::vector<x86::Gp> regs;
-    for (uint32_t i = 0; i < 24; i++) { x86::Gp r = cc.new_gp32(); cc.mov(r, a0); cc.add(r, int(i + variant)); regs.push_back(r); }
-    for (auto& r : regs) cc.add(a1, r);
-    cc.ret(a1);
-    cc.end_func();
-    if (cc.finalize() != Error::kOk) return 0;
+  while (!pending.empty()) { Label l = pending.back(); pending.pop_back(); note(e->bind(l)); note(e->nop()); }
+  note(e->ret());
+  return first;
+}
+
+// One x86 Compiler function: virtual registers (more than there are physical ones), forward branches, constants from
+// both pools, a stack slot, vector registers with 4-operand instructions.
+Error prog_func(x86::Compiler* cc, uint64_t seed, uint32_t n) {
+  Rng r(seed);
+  Error first = Error::kOk;
+  auto note = [&](Error err) { if (err != Error::kOk && first == Error::kOk) first = err; };
+  FuncNode* fn = cc->add_func(FuncSignature::build<int, int, int>());
+  if (!fn) return Error::kOutOfMemory;
+  uint32_t nv = 3 + r.below(20);
+  std::vector<x86::Gp> v;
+  for (uint32_t i = 0; i < nv; i++) v.push_back(r.below(3) ? cc->new_gp32() : cc->new_gp64());
+  fn->set_arg(0, v[0].r32());
+  fn->set_arg(1, v[1].r32());
+  for (uint32_t i = 2; i < nv; i++) note(cc->mov(v[i].r32(), Imm(int32_t(r.below(1000)))));
+  std::vector<x86::Vec> y;
+  for (uint32_t i = 0; i < 4; i++) { y.push_back(cc->new_ymm()); note(cc->vpxor(y[i], y[i], y[i])); }
+  x86::Mem slot = cc->new_stack(16, 4);
+  Label exit_l = cc->new_label();
+  std::vector<Label> fwd;
+  for (uint32_t i = 0; i < n; i++) {
+    x86::Gp a = v[r.below(nv)], b = v[r.below(nv)];
+    switch (r.below(12)) {
+      case 0: note(cc->add(a.r32(), b.r32())); break;
+      case 1: note(cc->imul(a.r32(), b.r32())); break;
+      case 2: note(cc->mov(slot, a.r32())); break;
+      case 3: note(cc->add(a.r32(), slot)); break;
+      case 4: note(cc->add(a.r32(), cc->new_int32_const(ConstPoolScope::kLocal, int32_t(r.below(50))))); break;
+      case 5: note(cc->xor_(a.r32(), cc->new_int32_const(ConstPoolScope::kGlobal, int32_t(r.below(50))))); break;
+      case 6: { Label l = cc->new_label(); fwd.push_back(l); note(cc->cmp(a.r32(), Imm(int32_t(r.below(100))))); note(cc->jl(l)); break; }
+      case 7: if (!fwd.empty()) { note(cc->bind(fwd.back())); fwd.pop_back(); } break;
+      case 8: note(cc->test(a.r32(), b.r32())); note(cc->jz(exit_l)); break;
+      case 9: note(cc->lea(a.r32(), x86::ptr(b.r64(), int32_t(r.below(64))))); break;
+      case 10: note(cc->vblendvps(y[r.below(4)], y[r.below(4)], y[r.below(4)], y[r.below(4)])); break;
+      case 11: note(cc->vshufps(y[r.below(4)], y[r.below(4)], y[r.below(4)], Imm(r.below(256)))); break;
+    }
   }
-  code.flatten();
+  while (!fwd.empty()) { note(cc->bind(fwd.back())); fwd.pop_back(); }
+  note(cc->bind(exit_l));
+  for (uint32_t i = 1; i < nv; i++) note(cc->add(v[0].r32(), v[i].r32()));
+  note(cc->ret(v[0].r32()));
+  note(cc->end_func());
+  return first;
+}
+
+// AArch64 instruction stream (Assembler or Builder)
+Error prog_asma(BaseEmitter* be, uint64_t seed, uint32_t n) {
+  a64::Emitter* e = be->as<a64::Emitter>();
+  Rng r(seed);
+  auto xr = [&]() { return a64::x(r.below(16)); };
+  auto wr = [&]() { return a64::w(r.below(16)); };
+  std::vector<Label> pending, bound;
+  Error first = Error::kOk;
+  auto note = [&](Error err) { if (err != Error::kOk && first == Error::kOk) first = err; };
+  for (uint32_t i = 0; i < n; i++) {
+    switch (r.below(14)) {
+      case 0: note(e->mov(xr(), Imm(int64_t(r.next() >> r.below(60))))); break;
+      case 1: note(e->add(xr(), xr(), xr())); break;
+      case 2: note(e->add(wr(), wr(), Imm(r.below(4096)))); break;
+      case 3: note(e->ldr(xr(), a64::ptr(xr(), int32_t(r.below(512)) * 8))); break;
+      case 4: { Label l = e->new_label(); pending.push_back(l); note(e->cbz(xr(), l)); break; }
+      case 5: { Label l = e->new_label(); pending.push_back(l); note(e->b(l)); break; }
+      case 6: if (!bound.empty()) { note(e->b_ne(bound[r.below(uint32_t(bound.size()))])); } break;
+      case 7: if (!pending.empty()) { Label l = pending.back(); pending.pop_back(); note(e->bind(l)); bound.push_back(l); } break;
+      case 8: { uint32_t v = uint32_t(r.next()); note(e->embed(&v, 4)); break; }
+      case 9: if (!bound.empty()) { note(e->adr(xr(), bound[r.below(uint32_t(bound.size()))])); } break;
+      case 10: { Label l = e->new_label(); pending.push_back(l); note(e->adr(xr(), l)); break; }
+      case 11: note(e->madd(xr(), xr(), xr(), xr())); break;                                       // 4 operands
+      case 12: note(e->ubfx(wr(), wr(), Imm(r.below(16)), Imm(1 + r.below(16)))); break;         // 4 operands
+      case 13: note(e->csel(xr(), xr(), xr(), a64::CondCode(r.below(14)))); break;
+    }
+  }
+  while (!pending.empty()) { Label l = pending.back(); pending.pop_back(); note(e->bind(l)); note(e->nop()); }
+  note(e->ret(a64::x30));
+  return first;
+}
+
+// One AArch64 Compiler function through the register allocator
+Error prog_funca(a64::Compiler* cc, uint64_t seed, uint32_t n) {
+  Rng r(seed);
+  Error first = Error::kOk;
+  auto note = [&](Error err) { if (err != Error::kOk && first == Error::kOk) first = err; };
+  FuncNode* fn = cc->add_func(FuncSignature::build<int, int, int>());
+  if (!fn) return Error::kOutOfMemory;
+  uint32_t nv = 3 + r.below(36);
+  std::vector<a64::Gp> v;
+  for (uint32_t i = 0; i < nv; i++) v.push_back(r.below(3) ? cc->new_gp32() : cc->new_gp64());
+  fn->set_arg(0, v[0].w());
+  fn->set_arg(1, v[1].w());
+  for (uint32_t i = 2; i < nv; i++) note(cc->mov(v[i].w(), Imm(int32_t(r.below(1000)))));
+  Label exit_l = cc->new_label();
+  std::vector<Label> fwd;
+  for (uint32_t i = 0; i < n; i++) {
+    a64::Gp a = v[r.below(nv)], b = v[r.below(nv)], c = v[r.below(nv)], d = v[r.below(nv)];
+    switch (r.below(8)) {
+      case 0: note(cc->add(a.w(), b.w(), c.w())); break;
+      case 1: note(cc->mul(a.w(), b.w(), c.w())); break;
+      case 2: note(cc->eor(a.w(), b.w(), c.w())); break;
+      case 3: { Label l = cc->new_label(); fwd.push_back(l); note(cc->cmp(a.w(), Imm(int32_t(r.below(100))))); note(cc->b_lt(l)); break; }
+      case 4: if (!fwd.empty()) { note(cc->bind(fwd.back())); fwd.pop_back(); } break;
+      case 5: note(cc->cbz(a.w(), exit_l)); break;
+      case 6: note(cc->add(a.w(), b.w(), Imm(r.below(64)))); break;
+      case 7: note(cc->madd(a.w(), b.w(), c.w(), d.w())); break;                                   // 4 operands
+    }
+  }
+  while (!fwd.empty()) { note(cc->bind(fwd.back())); fwd.pop_back(); }
+  note(cc->bind(exit_l));
+  for (uint32_t i = 1; i < nv; i++) note(cc->add(v[0].w(), v[0].w(), v[i].w()));
+  note(cc->ret(v[0].w()));
+  note(cc->end_func());
+  return first;
+}
+
+constexpr uint32_t kGenKinds = 6;      // x86 asm, x86 builder, x86 compiler, a64 asm, a64 builder, a64 compiler
+constexpr uint32_t kGenSeeds = 4;
+
+// One complete generation with private CodeHolder, emitter and logger; returns FNV of (error, section bytes, logger text).
+uint64_t gen_code_hash(uint32_t kind, uint32_t seed) {
+  bool is_a64 = kind >= 3;
+  Environment env(is_a64 ? Arch::kAArch64 : Arch::kX64);
+  CodeHolder code;
+  StringLogger logger;
+  logger.add_flags(FormatFlags::kMachineCode | FormatFlags::kRegCasts | FormatFlags::kExplainImms);
+  code.init(env);
+  code.set_logger(&logger);
+  vh::Fnv h;
+  Error err = Error::kOk;
+  uint32_t n = 60 + seed * 25;
+  switch (kind) {
+    case 0: { x86::Assembler a(&code); err = prog_asmx(&a, seed + 11, n); break; }
+    case 1: { x86::Builder b(&code); err = prog_asmx(&b, seed + 11, n); Error e2 = b.finalize(); if (err == Error::kOk) err = e2; break; }
+    case 2: {
+      x86::Compiler cc(&code);
+      cc.add_diagnostic_options(DiagnosticOptions::kRAAnnotate);
+      err = prog_func(&cc, seed + 5, n);
+      Error e2 = prog_func(&cc, seed + 77, n / 2); if (err == Error::kOk) err = e2;
+      e2 = cc.finalize(); if (err == Error::kOk) err = e2;
+      break;
+    }
+    case 3: { a64::Assembler a(&code); err = prog_asma(&a, seed + 11, n); break; }
+    case 4: { a64::Builder b(&code); err = prog_asma(&b, seed + 11, n); Error e2 = b.finalize(); if (err == Error::kOk) err = e2; break; }
+    default: {
+      a64::Compiler cc(&code);
+      err = prog_funca(&cc, seed + 5, n);
+      Error e2 = prog_funca(&cc, seed + 77, n / 2); if (err == Error::kOk) err = e2;
+      e2 = cc.finalize(); if (err == Error::kOk) err = e2;
+      break;
+    }
+  }
+  h.add(std::to_string(uint32_t(err)));
+  Error fe = code.flatten();
+  h.add(std::to_string(uint32_t(fe)));
   for (Section* s : code.sections()) h.add(vh::bytes_to_hex(s->data(), s->buffer_size()));
+  h.add(std::string(logger.data(), logger.data_size()));
   return h.h;
 }
 
+} // namespace
+
+// ---------------------------------------------------------------------------------------------------------------------
+// linearisation through hook H2
+// ---------------------------------------------------------------------------------------------------------------------
+enum CtxKind : int { kNone = 0, kAlloc, kRelease, kShrink, kShrink0, kWtrunc, kQuery, kStats, kRt };
+
+struct Ctx {
+  uint32_t tid = 0;
+  int kind = kNone;
+  uint64_t req = 0;
+  uint32_t byte = 0;
+  std::vector<std::string> pending;     // C09 lines of lock-free operations not yet placed into the linearisation
+  std::vector<std::string> po;          // program order: signatures as the caller saw them
+  uint64_t last_handle = 0;             // handle given to the last alloc event of this thread
+  uint64_t last_alloc_rx = 0;
+  uint32_t yield_level = 0;
+  uint64_t yrng = 88172645463325252ull;
+  uint32_t rnd() { yrng ^= yrng << 13; yrng ^= yrng >> 7; yrng ^= yrng << 17; return uint32_t(yrng >> 11); }
+};
+
+static thread_local Ctx* tl = nullptr;
+static bool g_hook_on = false;
+
+static std::string sig_alloc(const void* rx, size_t size) { return "A:" + vh::to_hex(uint64_t(uintptr_t(rx))) + ":" + std::to_string(size); }
+static std::string sig_release(const void* rx) { return "R:" + vh::to_hex(uint64_t(uintptr_t(rx))); }
+static std::string sig_shrink(const void* rx, size_t size) { return "S:" + vh::to_hex(uint64_t(uintptr_t(rx))) + ":" + std::to_string(size); }
+static std::string sig_query(const void* asked, const void* rx, size_t size) {
+  return "Q:" + vh::to_hex(uint64_t(uintptr_t(asked))) + ":" + vh::to_hex(uint64_t(uintptr_t(rx))) + ":" + std::to_string(size);
+}
+static std::string sig_stats(const JitAllocator::Statistics& s) {
+  return "T:" + std::to_string(s.block_count()) + ":" + std::to_string(s.allocation_count()) + ":" + std::to_string(s.used_size()) + ":" +
+         std::to_string(s.reserved_size()) + ":" + std::to_string(s.overhead_size());
+}
+
+// random scheduling noise (seeded): yields and short sleeps; `where` 0 = between operations, 1 = inside a critical section
+static inline void noise(Ctx& c, uint32_t where) {
+  if (!c.yield_level) return;
+  uint32_t r = c.rnd();
+  uint32_t m = r % 1000;
+  uint32_t py = (where ? 25u : 40u) * c.yield_level;
+  if (m < py) sched_yield();
+  else if (c.yield_level >= 2 && m < py + 4u * (c.yield_level - 1)) usleep((r >> 10) % (c.yield_level >= 3 ? 200 : 40));
+}
+
+#ifdef C11_H2
+extern "C" void (*asmjit_verif_jit_event)(unsigned kind, const void* a, const void* b, size_t c);
+
+// everything below is protected by the allocator's own lock (the callback runs inside the critical section)
+static JitAllocatorPrivateImpl* g_impl = nullptr;
+static std::vector<std::string> g_lin;
+static std::string g_last_stats;
+static std::map<uintptr_t, uint64_t> g_handle_of;      // rx address of a live span -> handle (index of its alloc in the history)
+static uint64_t g_next_handle = 0;
+static std::map<JitAllocatorBlock*, uint32_t> ORD;     // live blocks -> creation ordinal (as harness/c09.cpp)
+static uint32_t g_next_ord = 0;
+static std::string g_lin_problem;
+
+static void refresh_blocks() {
+  std::map<JitAllocatorBlock*, uint32_t> nowm;
+  std::vector<JitAllocatorBlock*> fresh;
+  for (size_t p = 0; p < g_impl->pool_count; p++)
+    for (JitAllocatorBlock* b = g_impl->pools[p].blocks.first(); b; b = b->next()) {
+      auto it = ORD.find(b);
+      if (it != ORD.end()) nowm[b] = it->second; else fresh.push_back(b);
+    }
+  for (JitAllocatorBlock* b : fresh) nowm[b] = g_next_ord++;
+  ORD.swap(nowm);
+}
+
+static std::string stats_of_pools() {
+  size_t blocks = 0, reserved = 0, used = 0, ovh = 0;
+  for (size_t p = 0; p < g_impl->pool_count; p++) {
+    const JitAllocatorPool& pool = g_impl->pools[p];
+    blocks += size_t(pool.block_count);
+    reserved += size_t(pool.total_area_size[0] + pool.total_area_size[1]) * pool.granularity;
+    used += size_t(pool.total_area_used[0] + pool.total_area_used[1]) * pool.granularity;
+    ovh += size_t(pool.total_overhead_bytes);
+  }
+  char buf[160];
+  snprintf(buf, sizeof(buf), " ; %zu %zu %zu %zu %zu", blocks, size_t(g_impl->allocation_count), used, reserved, ovh - blocks * sizeof(JitAllocatorBlock));
+  return buf;
+}
+
+static std::string stats_of_answer(const JitAllocator::Statistics& s) {
+  char buf[160];
+  snprintf(buf, sizeof(buf), " ; %zu %zu %zu %zu %zu", s.block_count(), s.allocation_count(), s.used_size(), s.reserved_size(),
+           s.overhead_size() - s.block_count() * sizeof(JitAllocatorBlock));
+  return buf;
+}
+
+static std::string span_str(const JitAllocator::Span& s) {
+  JitAllocatorBlock* b = static_cast<JitAllocatorBlock*>(s._block);
+  auto it = ORD.find(b);
+  if (it == ORD.end()) return "unknown-block";
+  size_t pool = size_t(b->pool() - g_impl->pools);
+  size_t off = size_t((uint8_t*)s.rx() - b->rx_ptr());
+  size_t rwoff = size_t((uint8_t*)s.rw() - b->rw_ptr());
+  char buf[200];
+  snprintf(buf, sizeof(buf), "b%u p%zu bs%zu %zu %zu rw%zu d%d", it->second, pool, b->block_size(), off, s.size(), rwoff, int(s.rx() != s.rw()));
+  return buf;
+}
+
+static std::string blocks_str() {
+  std::vector<std::pair<uint32_t, JitAllocatorBlock*>> v;
+  for (auto& x : ORD) v.emplace_back(x.second, x.first);
+  std::sort(v.begin(), v.end());
+  std::string out = "blocks";
+  for (auto& x : v) {
+    JitAllocatorBlock* blk = x.second;
+    out += " b" + std::to_string(x.first) + ":p" + std::to_string(size_t(blk->pool() - g_impl->pools)) + ":" + std::to_string(blk->block_size()) +
+           ":" + ((blk->_flags & JitAllocatorBlock::kFlagInitialPadding) ? "1" : "0");
+  }
+  return out;
+}
+
+static void on_event(unsigned kind, const void* a, const void* b, size_t c) {
+  Ctx* t = tl;
+  if (!t || a != g_impl) return;          // not inside a run (e.g. the destructor's reset)
+  noise(*t, 1);                            // widen the critical section at random: unlocked accesses elsewhere get a chance to overlap
+  std::string pre = "L " + std::to_string(t->tid) + " ";
+  for (auto& p : t->pending) g_lin.push_back(pre + "- u | " + p + g_last_stats);
+  t->pending.clear();
+  refresh_blocks();
+  std::string stats = kind == 5 ? stats_of_answer(*static_cast<const JitAllocator::Statistics*>(b)) : stats_of_pools();
+  std::string sig, op, ans;
+  auto handle_at = [&](uintptr_t addr, uint64_t& h, uintptr_t& base) -> bool {
+    auto it = g_handle_of.upper_bound(addr);
+    if (it == g_handle_of.begin()) return false;
+    --it; h = it->second; base = it->first;
+    return true;
+  };
+  switch (kind) {
+    case 1: {
+      const JitAllocator::Span& s = *static_cast<const JitAllocator::Span*>(b);
+      uint64_t h = g_next_handle++;
+      g_handle_of[uintptr_t(s.rx())] = h;
+      t->last_handle = h;
+      t->last_alloc_rx = uint64_t(uintptr_t(s.rx()));
+      sig = sig_alloc(s.rx(), s.size());
+      op = "alloc " + std::to_string(t->kind == kAlloc ? t->req : uint64_t(c));
+      ans = "ok " + span_str(s);
+      break;
+    }
+    case 2: {
+      uint64_t h = 0; uintptr_t base = 0;
+      if (!handle_at(uintptr_t(b), h, base) || base != uintptr_t(b)) { g_lin_problem = "release of an address no alloc event handed out"; h = 999999999; }
+      else g_handle_of.erase(base);
+      sig = sig_release(b);
+      if (t->kind == kShrink0) { op = "shrink " + std::to_string(h) + " 0"; ans = "ok 0"; }
+      else if (t->kind == kWtrunc) { op = "wtrunc " + std::to_string(h) + " " + vh::to_hex(t->byte) + " 0"; ans = "ok 0"; }
+      else { op = "release " + std::to_string(h); ans = "ok"; }
+      break;
+    }
+    case 3: {
+      const JitAllocator::Span& s = *static_cast<const JitAllocator::Span*>(b);
+      uint64_t h = 0; uintptr_t base = 0;
+      if (!handle_at(uintptr_t(s.rx()), h, base) || base != uintptr_t(s.rx())) { g_lin_problem = "shrink of a span no alloc event handed out"; h = 999999999; }
+      sig = sig_shrink(s.rx(), s.size());
+      if (t->kind == kWtrunc) op = "wtrunc " + std::to_string(h) + " " + vh::to_hex(t->byte) + " " + std::to_string(c);
+      else op = "shrink " + std::to_string(h) + " " + std::to_string(c);
+      ans = "ok " + std::to_string(s.size());
+      break;
+    }
+    case 4: {
+      const JitAllocator::Span& s = *static_cast<const JitAllocator::Span*>(b);
+      uint64_t h = 0; uintptr_t base = 0;
+      if (!handle_at(uintptr_t(c), h, base)) { g_lin_problem = "query of an address below every span"; h = 999999999; }
+      sig = sig_query((const void*)uintptr_t(c), s.rx(), s.size());
+      op = "query " + std::to_string(h) + " " + std::to_string(uintptr_t(c) - base);
+      ans = "ok " + span_str(s);
+      break;
+    }
+    case 5: {
+      sig = sig_stats(*static_cast<const JitAllocator::Statistics*>(b));
+      op = "blocks";
+      ans = blocks_str();
+      break;
+    }
+    case 6: {
+      sig = "X:" + std::to_string(c);
+      op = c == size_t(ResetPolicy::kHard) ? "reset hard" : "reset soft";
+      ans = blocks_str();
+      g_handle_of.clear();
+      break;
+    }
+    default: return;
+  }
+  if (t->kind == kRt) t->po.push_back(sig);         // operations made by JitRuntime on the caller's behalf: program order = event order
+  size_t seq = t->kind == kRt ? t->po.size() - 1 : t->po.size();
+  g_lin.push_back(pre + std::to_string(seq) + " " + sig + " | " + op + " => " + ans + stats);
+  g_last_stats = stats;
+}
+
+// ---- quiescent observations (single-threaded, after the join): the same answers harness/c09.cpp gives ----
+static std::string colour(const uint8_t* p, size_t gran, uint32_t pattern) {
+  bool uni = true;
+  for (size_t i = 1; i < gran; i++) if (p[i] != p[0]) { uni = false; break; }
+  if (uni) { char b[8]; snprintf(b, sizeof(b), "U%02x", p[0]); return b; }
+  bool pat = true;
+  for (size_t i = 0; i < gran; i += 4) { uint32_t w; memcpy(&w, p + i, 4); if (w != pattern) { pat = false; break; } }
+  return pat ? "P" : "X";
+}
+
+static std::string colours(const uint8_t* p, size_t n_gran, size_t gran, uint32_t pattern) {
+  std::string out, cur;
+  size_t run = 0;
+  for (size_t g = 0; g < n_gran; g++) {
+    std::string c = colour(p + g * gran, gran, pattern);
+    if (c == cur) { run++; continue; }
+    if (run) { if (!out.empty()) out += ","; out += cur + "*" + std::to_string(run); }
+    cur = c; run = 1;
+  }
+  if (run) { if (!out.empty()) out += ","; out += cur + "*" + std::to_string(run); }
+  return out;
+}
+
+static std::string bits_runs(const Support::BitWord* v, uint32_t n) {
+  std::string out;
+  uint32_t i = 0;
+  while (i < n) {
+    if (!Support::bit_vector_get_bit(const_cast<Support::BitWord*>(v), i)) { i++; continue; }
+    uint32_t j = i;
+    while (j < n && Support::bit_vector_get_bit(const_cast<Support::BitWord*>(v), j)) j++;
+    if (!out.empty()) out += ",";
+    out += std::to_string(i) + "-" + std::to_string(j);
+    i = j;
+  }
+  return out.empty() ? "-" : out;
+}
+
+static std::vector<std::pair<uint32_t, JitAllocatorBlock*>> blocks_sorted() {
+  std::vector<std::pair<uint32_t, JitAllocatorBlock*>> v;
+  for (auto& x : ORD) v.emplace_back(x.second, x.first);
+  std::sort(v.begin(), v.end());
+  return v;
+}
+
+static std::string dump_str() {
+  std::string out = "dump";
+  JitAllocatorPrivateImpl* I = g_impl;
+  for (size_t p = 0; p < I->pool_count; p++) {
+    JitAllocatorPool& pool = I->pools[p];
+    auto it = pool.cursor ? ORD.find(pool.cursor) : ORD.end();
+    out += " p" + std::to_string(p) + ":cur=" + (it == ORD.end() ? std::string("-") : "b" + std::to_string(it->second)) +
+           ":ec=" + std::to_string(pool.empty_block_count) + ":bc=" + std::to_string(pool.block_count);
+    for (JitAllocatorBlock* blk = pool.blocks.first(); blk; blk = blk->next()) {
+      char buf[256];
+      uint32_t f = blk->_flags;
+      snprintf(buf, sizeof(buf), " b%u:sz=%zu:area=%u:fl=%s%s%s%s:used=%u:lu=%u:ss=%u:se=%u", ORD[blk], blk->block_size(), blk->area_size(),
+               (f & JitAllocatorBlock::kFlagInitialPadding) ? "P" : "", (f & JitAllocatorBlock::kFlagEmpty) ? "E" : "",
+               (f & JitAllocatorBlock::kFlagDirty) ? "D" : "", (f & JitAllocatorBlock::kFlagIncremental) ? "I" : "",
+               blk->area_used(), blk->largest_unused_area(), blk->_search_start, blk->_search_end);
+      out += buf;
+      out += ":u=" + bits_runs(blk->_used_bit_vector, blk->area_size()) + ":s=" + bits_runs(blk->_stop_bit_vector, blk->area_size());
+    }
+  }
+  return out;
+}
+
+static std::string sweep_str(JitAllocator& A) {     // query() at every granule of every block (the caller has tl == nullptr: no events)
+  std::string out = "sweep";
+  for (auto& x : blocks_sorted()) {
+    JitAllocatorBlock* blk = x.second;
+    size_t gran = blk->pool()->granularity;
+    out += " b" + std::to_string(x.first) + "=";
+    std::string items;
+    size_t cur_start = SIZE_MAX, cur_size = 0;
+    for (uint32_t g = 0; g < blk->area_size(); g++) {
+      JitAllocator::Span s;
+      Error e = A.query(Out(s), blk->rx_ptr() + size_t(g) * gran + (g % 3));
+      if (e != Error::kOk) { cur_start = SIZE_MAX; continue; }
+      size_t st = size_t((uint8_t*)s.rx() - blk->rx_ptr()) / gran, sz = s.size() / gran;
+      if (s._block != blk || size_t((uint8_t*)s.rw() - blk->rw_ptr()) != st * gran || s.size() % gran) { items += "!bad@" + std::to_string(g); continue; }
+      if (st == cur_start && sz == cur_size) continue;
+      cur_start = st; cur_size = sz;
+      if (!items.empty()) items += ",";
+      items += std::to_string(st) + "+" + std::to_string(sz);
+      if (st != g) items += "!late@" + std::to_string(g);
+    }
+    out += items.empty() ? "-" : items;
+  }
+  return out;
+}
+
+static void quiescent(const std::string& op, const std::string& ans) {
+  g_last_stats = stats_of_pools();
+  g_lin.push_back("L - - q | " + op + " => " + ans + g_last_stats);
+}
+#endif // C11_H2
+
+// ---------------------------------------------------------------------------------------------------------------------
+
 static std::string step(const std::string& line) {
   auto w = vh::words(line);
-  uint64_t nthreads, nops, seed, opts, gran;
-  if (w.size() != 6 || w[0] != "run" || !vh::parse_u64(w[1], nthreads) || !vh::parse_u64(w[2], nops) || !vh::parse_u64(w[3], seed) ||
+  uint64_t nthreads, nops, seed, opts, gran, ylevel = 0;
+  if ((w.size() != 6 && w.size() != 7) || w[0] != "run" || !vh::parse_u64(w[1], nthreads) || !vh::parse_u64(w[2], nops) || !vh::parse_u64(w[3], seed) ||
       !vh::parse_hex(w[4], opts) || !vh::parse_u64(w[5], gran) || nthreads < 1 || nthreads > 64) return "bad-op";
+  if (w.size() == 7 && !vh::parse_u64(w[6], ylevel)) return "bad-op";
 
   JitAllocator::CreateParams params;
   params.options = JitAllocatorOptions(uint32_t(opts));
@@ -63,80 +552,264 @@ static std::string step(const std::string& line) {
   params.block_size = 65536;
   JitRuntime rt(&params);
   JitAllocator& alloc = rt.allocator();
+  std::string out;
 
-  uint64_t expect_asm = gen_code_hash(3, false), expect_cc = gen_code_hash(5, true);
-  std::vector<std::vector<SpanRec>> recs(nthreads);
+#ifdef C11_H2
+  g_hook_on = true;
+  g_impl = static_cast<JitAllocatorPrivateImpl*>(alloc._impl);
+  g_lin.clear(); g_handle_of.clear(); ORD.clear(); g_next_handle = 0; g_next_ord = 0; g_lin_problem.clear();
+  {
+    char buf[256];
+    snprintf(buf, sizeof(buf), "L - - q | cfg %x %u %u 0 => ok init=%d opts=%x gran=%u block=%u fill=%x pools=%zu", uint32_t(opts), uint32_t(gran), 65536u,
+             int(alloc.is_initialized()), uint32_t(alloc.options()), alloc.granularity(), alloc.block_size(), alloc.fill_pattern(), g_impl->pool_count);
+    g_last_stats = stats_of_pools();
+    g_lin.push_back(std::string(buf) + g_last_stats);
+  }
+  asmjit_verif_jit_event = on_event;
+#endif
+  out += std::string("hook ") + (g_hook_on ? "1" : "0") + "\n";
+
+  // single-threaded reference results of the code generators (also initialises every init-once static of the library)
+  uint64_t expect[kGenKinds][kGenSeeds];
+  for (uint32_t k = 0; k < kGenKinds; k++) for (uint32_t s = 0; s < kGenSeeds; s++) expect[k][s] = gen_code_hash(k, s);
+
+  std::vector<std::vector<SpanRec>> recs(nthreads + 1);
   std::vector<std::string> code_lines(nthreads);
-  std::vector<uint64_t> errors(nthreads, 0);
+  std::vector<uint64_t> errors(nthreads + 1, 0);
+  std::vector<Ctx> ctxs(nthreads + 1);
+  struct Live { JitAllocator::Span span; size_t rec; uint8_t tag; uint64_t size; uint64_t h; uint32_t owner; };
+  std::vector<std::vector<Live>> leftovers(nthreads);
   std::vector<std::thread> ths;
   for (uint32_t tid = 0; tid < nthreads; tid++) {
     ths.emplace_back([&, tid]() {
       std::mt19937_64 rng(seed * 1000003 + tid);
-      struct Live { JitAllocator::Span span; size_t rec; uint8_t tag; uint64_t size; };
+      Ctx& cx = ctxs[tid];
+      cx.tid = tid; cx.yield_level = uint32_t(ylevel); cx.yrng ^= (seed + 1) * 0x9E3779B97F4A7C15ull + tid * 7919;
+      tl = &cx;
+      const bool H = g_hook_on;
       std::vector<Live> live;
+      // a thread-private allocator (never shared): must not interfere with anything either
+      JitAllocator::CreateParams pparams;
+      pparams.options = JitAllocatorOptions((uint32_t(opts) ^ 0x2u) & ~0x20u);
+      pparams.granularity = uint32_t(gran);
+      JitAllocator priv(&pparams);
+      std::vector<JitAllocator::Span> priv_live;
       uint64_t h_asm = 0, h_cc = 0;
       uint32_t code_runs = 0;
+      std::string first_diff;
+      auto granule_of = [&](const JitAllocator::Span& s) -> size_t {
+#ifdef C11_H2
+        return static_cast<JitAllocatorBlock*>(s._block)->pool()->granularity;     // immutable after construction
+#else
+        (void)s; return size_t(gran);
+#endif
+      };
+      auto read_line = [&](const Live& l) {
+#ifdef C11_H2
+        if (H) cx.pending.push_back("read " + std::to_string(l.h) + " => ok " + colours((const uint8_t*)l.span.rx(), l.size / granule_of(l.span), granule_of(l.span), alloc.fill_pattern()));
+#else
+        (void)l;
+#endif
+      };
       for (uint64_t i = 0; i < nops; i++) {
+        noise(cx, 0);
         uint32_t k = uint32_t(rng() % 100);
-        if (k < 40 || live.empty()) {
+        if (k < 38 || live.empty()) {
           size_t req = 1 + size_t(rng() % (k < 5 ? 70000 : 900));
           JitAllocator::Span span;
+          cx.kind = kAlloc; cx.req = req;
           Error e = alloc.alloc(Out(span), req);
+          cx.kind = kNone;
           uint64_t t0 = now();
           if (e != Error::kOk) { errors[tid]++; continue; }
+          if (H) cx.po.push_back(sig_alloc(span.rx(), span.size()));
           uint8_t tag = uint8_t(rng());
+          noise(cx, 0);
           alloc.write(span, 0, std::string(span.size(), char(tag)).data(), span.size());
+          if (H) cx.pending.push_back("write " + std::to_string(cx.last_handle) + " " + vh::to_hex(tag) + " => ok");
           recs[tid].push_back({tid, uint64_t(uintptr_t(span.rx())), uint64_t(uintptr_t(span.rw())), span.size(), req, t0, 0, 1});
-          live.push_back({span, recs[tid].size() - 1, tag, span.size()});
+          live.push_back({span, recs[tid].size() - 1, tag, span.size(), cx.last_handle, tid});
         }
-        else if (k < 70) {
+        else if (k < 66) {
           size_t j = rng() % live.size();
           Live l = live[j];
           // contents must be intact until released
           const uint8_t* p = static_cast<const uint8_t*>(l.span.rx());
           for (size_t b = 0; b < l.size; b += 37) if (p[b] != l.tag) { recs[tid][l.rec].ok = 0; break; }
+          read_line(l);
           recs[tid][l.rec].t1 = now();
+          cx.kind = kRelease;
           if (alloc.release(l.span.rx()) != Error::kOk) errors[tid]++;
+          cx.kind = kNone;
+          if (H) cx.po.push_back(sig_release(l.span.rx()));
           live[j] = live.back(); live.pop_back();
         }
-        else if (k < 80) {
+        else if (k < 78) {
           size_t j = rng() % live.size();
-          size_t ns = 1 + rng() % live[j].size;
-          if (alloc.shrink(live[j].span, ns) == Error::kOk) {
+          uint32_t mode = uint32_t(rng() % 16);
+          void* rx = live[j].span.rx();
+          if (mode == 0) {            // shrink to nothing = release
+            recs[tid][live[j].rec].t1 = now();
+            cx.kind = kShrink0;
+            if (alloc.shrink(live[j].span, 0) != Error::kOk) errors[tid]++;
+            cx.kind = kNone;
+            if (H) cx.po.push_back(sig_release(rx));
+            live[j] = live.back(); live.pop_back();
+          }
+          else if (mode < 4 && live[j].size > 1) {   // write through the callback variant and truncate inside the callback
+            size_t ns = 1 + rng() % (live[j].size - 1);
+            uint8_t tag = uint8_t(rng());
+            struct TC { uint8_t byte; size_t ns; } tc{tag, ns};
+            cx.kind = kWtrunc; cx.byte = tag;
+            Error e = alloc.write(live[j].span, [](JitAllocator::Span& s, void* ud) noexcept -> Error {
+              TC* t = static_cast<TC*>(ud);
+              memset(s.rw(), t->byte, s.size());
+              s.shrink(t->ns);
+              return Error::kOk;
+            }, &tc);
+            cx.kind = kNone;
+            if (e != Error::kOk) { errors[tid]++; continue; }
+            if (H) cx.po.push_back(sig_shrink(rx, live[j].span.size()));
+            live[j].tag = tag;
             live[j].size = live[j].span.size();
-            recs[tid][live[j].rec].size = live[j].span.size();   // shrinking only ever frees the tail: still a sound lifetime record
+            recs[tid][live[j].rec].size = live[j].span.size();
             recs[tid][live[j].rec].requested = ns;
           }
+          else {
+            size_t ns = 1 + rng() % live[j].size;
+            cx.kind = kShrink;
+            Error e = alloc.shrink(live[j].span, ns);
+            cx.kind = kNone;
+            if (e == Error::kOk) {
+              if (H) cx.po.push_back(sig_shrink(rx, live[j].span.size()));
+              live[j].size = live[j].span.size();
+              recs[tid][live[j].rec].size = live[j].span.size();   // shrinking only ever frees the tail: still a sound lifetime record
+              recs[tid][live[j].rec].requested = ns;
+            }
+            else errors[tid]++;
+          }
         }
-        else if (k < 90) {
+        else if (k < 88) {
           size_t j = rng() % live.size();
           JitAllocator::Span q;
-          if (alloc.query(Out(q), live[j].span.rx()) != Error::kOk || q.rx() != live[j].span.rx() || q.size() != live[j].size) recs[tid][live[j].rec].ok = 0;
-          (void)alloc.statistics();
+          uint8_t* asked = static_cast<uint8_t*>(live[j].span.rx()) + (rng() % 3 ? rng() % live[j].size : 0);
+          cx.kind = kQuery;
+          Error e = alloc.query(Out(q), asked);
+          cx.kind = kNone;
+          if (e != Error::kOk || q.rx() != live[j].span.rx() || q.size() != live[j].size) recs[tid][live[j].rec].ok = 0;
+          if (H && e == Error::kOk) cx.po.push_back(sig_query(asked, q.rx(), q.size()));
+          if (e != Error::kOk) errors[tid]++;
+          if (rng() % 2) {
+            cx.kind = kStats;
+            JitAllocator::Statistics st = alloc.statistics();
+            cx.kind = kNone;
+            if (H) cx.po.push_back(sig_stats(st));
+          }
         }
-        else if (k < 95) {
+        else if (k < 93) {
           // independent code generation + installation through the shared runtime
           CodeHolder code; code.init(rt.environment());
           x86::Assembler a(&code);
-          a.mov(x86::eax, int(tid * 1000 + i)); a.ret();
+          uint32_t pad = uint32_t(rng() % 40);
+          a.mov(x86::eax, int(tid * 1000 + i));
+          a.ret();
+          for (uint32_t q = 0; q < pad; q++) a.int3();
           int (*fn)() = nullptr;
-          if (rt.add(&fn, &code) == Error::kOk) {
+          cx.kind = kRt;
+          Error e = rt.add(&fn, &code);
+          if (e == Error::kOk) {
+            if (H && cx.last_alloc_rx != uint64_t(uintptr_t(fn))) errors[tid] += 1000000;
             if (fn() != int(tid * 1000 + i)) errors[tid] += 1000000;
+            noise(cx, 0);
             rt.release(fn);
+          }
+          else errors[tid]++;
+          cx.kind = kNone;
+        }
+        else if (k < 96) {
+          // the private allocator: a burst of allocations of assorted sizes, contents checked, most released again
+          for (uint32_t q = 0; q < 6; q++) {
+            JitAllocator::Span sp;
+            size_t req = 1 + size_t(rng() % 3000);
+            if (priv.alloc(Out(sp), req) != Error::kOk || sp.size() < req) { errors[tid]++; continue; }
+            priv.write(sp, 0, std::string(sp.size(), char(0x40 + q)).data(), sp.size());
+            priv_live.push_back(sp);
+          }
+          while (priv_live.size() > 8) {
+            size_t j = rng() % priv_live.size();
+            JitAllocator::Span q;
+            const uint8_t* p = static_cast<const uint8_t*>(priv_live[j].rx());
+            if (priv.query(Out(q), priv_live[j].rx()) != Error::kOk || q.size() != priv_live[j].size() || p[0] != p[priv_live[j].size() - 1]) errors[tid] += 1000;
+            if (priv.release(priv_live[j].rx()) != Error::kOk) errors[tid]++;
+            priv_live[j] = priv_live.back(); priv_live.pop_back();
           }
         }
         else {
-          h_asm ^= gen_code_hash(3, false) ^ expect_asm;   // 0 when identical
-          h_cc ^= gen_code_hash(5, true) ^ expect_cc;
+          uint32_t kind = uint32_t(rng() % kGenKinds), s = uint32_t(rng() % kGenSeeds);
+          uint64_t d = gen_code_hash(kind, s) ^ expect[kind][s];   // 0 when identical
+          if (d && first_diff.empty()) first_diff = " first=" + std::to_string(kind) + ":" + std::to_string(s);
+          if (kind == 2 || kind == 5) h_cc |= d; else h_asm |= d;
           code_runs++;
         }
       }
-      for (auto& l : live) { recs[tid][l.rec].t1 = now(); alloc.release(l.span.rx()); }
-      code_lines[tid] = "code " + std::to_string(tid) + " runs=" + std::to_string(code_runs) + " asm_diff=" + vh::to_hex(h_asm) + " cc_diff=" + vh::to_hex(h_cc);
+#ifdef C11_H2
+      if (H) {       // place the remaining lock-free operations: one more critical section of this thread
+        cx.kind = kStats;
+        JitAllocator::Statistics st = alloc.statistics();
+        cx.kind = kNone;
+        cx.po.push_back(sig_stats(st));
+      }
+#endif
+      for (auto& sp : priv_live) if (priv.release(sp.rx()) != Error::kOk) errors[tid]++;
+      if (priv.statistics().allocation_count() != 0) errors[tid] += 1000;
+      leftovers[tid] = live;
+      code_lines[tid] = "code " + std::to_string(tid) + " runs=" + std::to_string(code_runs) + " asm_diff=" + vh::to_hex(h_asm) + " cc_diff=" + vh::to_hex(h_cc) + first_diff;
+      tl = nullptr;
     });
   }
   for (auto& t : ths) t.join();
-  std::string out;
+
+  // ---- quiescent part: observe the whole state, then give everything back from the main thread ----
+  Ctx& mx = ctxs[nthreads];
+  mx.tid = uint32_t(nthreads);
+#ifdef C11_H2
+  refresh_blocks();
+  quiescent("sweep", sweep_str(alloc));
+  quiescent("dump", dump_str());
+  tl = &mx;
+#endif
+  for (uint32_t tid = 0; tid < nthreads; tid++)
+    for (auto& l : leftovers[tid]) {
+      const uint8_t* p = static_cast<const uint8_t*>(l.span.rx());
+      for (size_t b = 0; b < l.size; b += 37) if (p[b] != l.tag) { recs[tid][l.rec].ok = 0; break; }
+      recs[tid][l.rec].t1 = now();
+      mx.kind = kRelease;
+      if (alloc.release(l.span.rx()) != Error::kOk) errors[nthreads]++;
+      mx.kind = kNone;
+      if (g_hook_on) mx.po.push_back(sig_release(l.span.rx()));
+    }
+  JitAllocator::Statistics st;
+  {
+    mx.kind = kStats;
+    st = alloc.statistics();
+    mx.kind = kNone;
+    if (g_hook_on) mx.po.push_back(sig_stats(st));
+  }
+#ifdef C11_H2
+  tl = nullptr;
+  refresh_blocks();
+  quiescent("sweep", sweep_str(alloc));
+  quiescent("dump", dump_str());
+  tl = &mx;
+  mx.kind = kNone;
+  alloc.reset(ResetPolicy::kSoft);
+  mx.po.push_back("X:" + std::to_string(size_t(ResetPolicy::kSoft)));
+  tl = nullptr;
+  refresh_blocks();
+  quiescent("dump", dump_str());
+  asmjit_verif_jit_event = nullptr;
+#endif
+
   // canonical: addresses relative to the lowest rx address seen
   uint64_t base = ~uint64_t(0);
   for (auto& v : recs) for (auto& r : v) base = std::min(base, r.rx);
@@ -150,7 +823,12 @@ static std::string step(const std::string& line) {
   uint64_t errs = 0;
   for (auto e : errors) errs += e;
   for (auto& c : code_lines) out += c + "\n";
-  JitAllocator::Statistics st = alloc.statistics();
+#ifdef C11_H2
+  for (auto& l : g_lin) out += l + "\n";
+  for (auto& c : ctxs) for (size_t i = 0; i < c.po.size(); i++) out += "P " + std::to_string(c.tid) + " " + std::to_string(i) + " " + c.po[i] + "\n";
+  if (!g_lin_problem.empty()) out += "linproblem " + g_lin_problem + "\n";
+  g_lin.clear();
+#endif
   out += "end spans=" + std::to_string(n) + " errors=" + std::to_string(errs) + " final_allocations=" + std::to_string(st.allocation_count()) + " used=" + std::to_string(st.used_size());
   return out;
 }
